@@ -18,70 +18,290 @@ from __future__ import annotations
 
 import ast
 
-from ..astutil import call_name, calls_in, guards_of, kwarg, norm, single_def_value, stores_to, walk_no_nested
-from ..cfg import CFG
+from ..algebra import AlgebraError, normal_form, poly_equal
+from ..astutil import call_name, kwarg, norm, walk_no_nested
+from ..conform import ref_normal_form
+from ..resolve import resolve_call
 from ..roles import expr_role
+from .c12 import Undecidable, ValueCase, _cp, unroll_literal_loops
 
 W = 'weather.py'
 EXPECT = {'u': 'sin', 'v': 'cos'}
 
 
-def _trig_of(fn, e, depth=0):
-    """which of sin/cos an air-speed term derives from (through single-def locals)"""
-    found = set()
-    for x in ast.walk(e):
-        if isinstance(x, ast.Call) and call_name(x).split('.')[-1] in ('sin', 'cos'):
-            found.add((call_name(x).split('.')[-1], x))
-    if found:
-        return found
-    if depth < 3:
-        for x in ast.walk(e):
-            if isinstance(x, ast.Name):
-                d = single_def_value(fn, x.id)
-                if d is not None:
-                    found |= _trig_of(fn, d, depth + 1)
-    return found
+def _last(c):
+    return call_name(c).split('.')[-1]
 
 
-def _wind_var(fn, e, depth=0):
-    """dataset variable ('u'/'v') a wind term is read from"""
+def _wind_vars(e):
+    """dataset variables ('u' / 'v') an expression reads: ds['u'], ds.get('u'), ds.u"""
+    out = set()
     for x in ast.walk(e):
-        if isinstance(x, ast.Subscript) and isinstance(x.slice, ast.Constant) and x.slice.value in ('u', 'v') \
-                and '_ds' in norm(x.value):
-            return x.slice.value
-    if depth < 3:
+        if isinstance(x, ast.Subscript) and isinstance(x.slice, ast.Constant) and x.slice.value in ('u', 'v'):
+            out.add(x.slice.value)
+        elif isinstance(x, ast.Call) and isinstance(x.func, ast.Attribute) and x.func.attr in ('get', 'variables', '__getitem__') \
+                and x.args and isinstance(x.args[0], ast.Constant) and x.args[0].value in ('u', 'v'):
+            out.add(x.args[0].value)
+        elif isinstance(x, ast.Attribute) and x.attr in ('u', 'v') and isinstance(x.value, (ast.Attribute, ast.Name)) \
+                and norm(x.value) not in ('np', 'numpy', 'math'):
+            out.add(x.attr)
+    return out
+
+
+def _trig_calls(e):
+    return [x for x in ast.walk(e) if isinstance(x, ast.Call) and _last(x) in ('sin', 'cos')]
+
+
+def _vector_norm(e):
+    """[a, b] when e computes sqrt(a² + b²): hypot(a, b), sqrt(a**2 + b**2), linalg.norm([a, b])"""
+    for x in ast.walk(e):
+        if not isinstance(x, ast.Call):
+            continue
+        nm = _last(x)
+        if nm == 'hypot' and len(x.args) == 2 and not x.keywords:
+            return list(x.args), x
+        if nm == 'norm' and len(x.args) == 1 and isinstance(x.args[0], (ast.List, ast.Tuple)) and len(x.args[0].elts) == 2 \
+                and not x.keywords:
+            return list(x.args[0].elts), x
+        if nm == 'sqrt' and len(x.args) == 1 and isinstance(x.args[0], ast.BinOp) and isinstance(x.args[0].op, ast.Add):
+            sq = []
+            for t in (x.args[0].left, x.args[0].right):
+                if isinstance(t, ast.BinOp) and isinstance(t.op, ast.Pow) and isinstance(t.right, ast.Constant) and t.right.value == 2:
+                    sq.append(t.left)
+                elif isinstance(t, ast.BinOp) and isinstance(t.op, ast.Mult) and norm(t.left) == norm(t.right):
+                    sq.append(t.left)
+            if len(sq) == 2:
+                return sq, x
+    return None, None
+
+
+def _find_norm(F, e, at, depth=0):
+    """the vector norm the returned value is, looking through locals: (components, anchor call, CFG node)"""
+    comps, call = _vector_norm(e)
+    if comps is not None:
+        return comps, call, at
+    if depth < 4:
         for x in ast.walk(e):
             if isinstance(x, ast.Name):
-                d = single_def_value(fn, x.id)
-                if d is not None:
-                    r = _wind_var(fn, d, depth + 1)
-                    if r:
+                b = F.binding(x.id, at)
+                if b is not None and b[2] is None:
+                    r = _find_norm(F, b[0], b[1], depth + 1)
+                    if r[0] is not None:
                         return r
+    return None, None, None
+
+
+def _step(F, e, at):
+    """a local name replaced by its one definition (one step, for display and structure)"""
+    if isinstance(e, ast.Name):
+        b = F.binding(e.id, at)
+        if b is not None and b[2] is None:
+            return b[0], b[1]
+    return e, at
+
+
+def _radians_of(e):
+    """X when e is X converted from degrees to radians: deg2rad(X), radians(X), X·π/180 in any arrangement"""
+    if isinstance(e, ast.Call) and _last(e) in ('deg2rad', 'radians') and len(e.args) == 1 and not e.keywords:
+        return e.args[0]
+    cands = [x for x in ast.walk(e) if isinstance(x, (ast.Name, ast.Attribute, ast.IfExp, ast.BoolOp, ast.Subscript))
+             and norm(x) not in ('np.pi', 'math.pi', 'pi', 'numpy.pi', 'np', 'math', 'numpy')]
+    # structural attempt: replace each candidate by a symbol and compare with symbol·π/180
+    for c in cands:
+        txt = norm(c)
+
+        class T(ast.NodeTransformer):
+            def visit(self, n):
+                if isinstance(n, ast.expr) and norm(n) == txt:
+                    return ast.Name('HEADING_DEG', ast.Load())
+                if isinstance(n, (ast.Attribute, ast.Name)) and norm(n) in ('np.pi', 'math.pi', 'pi', 'numpy.pi'):
+                    return ast.Name('PI', ast.Load())
+                return super().visit(n)
+        try:
+            if poly_equal(normal_form(T().visit(_cp(e))), ref_normal_form('HEADING_DEG * PI / 180', {})):
+                return c
+        except AlgebraError:
+            pass
     return None
 
 
-def run(ctx):
-    prog = ctx.prog
-    m = prog.module(W)
-    gs = m.func('Weather.get_ground_speed')
-    fn = gs.node
+def _mod360(e):
+    """X for `X % 360` / `np.mod(X, 360)` (the trigonometric functions do not see the difference), else e"""
+    if isinstance(e, ast.BinOp) and isinstance(e.op, ast.Mod) and isinstance(e.right, ast.Constant) and e.right.value in (360, 360.0):
+        return e.left
+    if isinstance(e, ast.Call) and _last(e) in ('mod', 'fmod', 'remainder') and len(e.args) == 2 \
+            and isinstance(e.args[1], ast.Constant) and e.args[1].value in (360, 360.0):
+        return e.args[0]
+    return e
+
+
+# ---------------------------------------------------------------------------------------------- R3: NaN refusal
+
+NAN_TESTS = ('isnull', 'isna', 'isnan')
+FINITE_TESTS = ('notnull', 'notna', 'isfinite')
+
+
+def _classify(e):
+    """('nan' | 'finite', [tested values], reductions) for an atomic test of NaN-ness, else None"""
+    red = []
+    neg = False
+    while True:
+        if isinstance(e, ast.Call) and isinstance(e.func, ast.Attribute) and e.func.attr in ('any', 'all') and not e.args:
+            red.append(e.func.attr)
+            e = e.func.value
+        elif isinstance(e, ast.Call) and _last(e) in ('any', 'all') and len(e.args) == 1 and not isinstance(e.args[0], (ast.GeneratorExp, ast.ListComp)):
+            red.append(_last(e))
+            e = e.args[0]
+        elif isinstance(e, ast.Call) and isinstance(e.func, ast.Attribute) and e.func.attr in ('item', 'to_numpy', 'squeeze', 'compute', 'load') and not e.args:
+            e = e.func.value
+        elif isinstance(e, ast.Call) and _last(e) in ('bool', 'asarray', 'squeeze') and len(e.args) == 1:
+            e = e.args[0]
+        elif isinstance(e, ast.Attribute) and e.attr in ('values', 'data'):
+            e = e.value
+        elif isinstance(e, ast.UnaryOp) and isinstance(e.op, ast.Invert):
+            neg = not neg
+            e = e.operand
+        else:
+            break
+    kind = vals = None
+    if isinstance(e, ast.Call):
+        nm = _last(e)
+        if nm in NAN_TESTS or nm in FINITE_TESTS:
+            kind = 'nan' if nm in NAN_TESTS else 'finite'
+            if isinstance(e.func, ast.Attribute) and not e.args and norm(e.func.value) not in ('np', 'numpy', 'math', 'pd', 'pandas', 'xr'):
+                vals = [e.func.value]
+            elif len(e.args) == 1:
+                a = e.args[0]
+                vals = list(a.elts) if isinstance(a, (ast.List, ast.Tuple)) else [a]
+    elif isinstance(e, ast.Compare) and len(e.ops) == 1 and isinstance(e.ops[0], ast.NotEq) and norm(e.left) == norm(e.comparators[0]):
+        kind, vals = 'nan', [e.left]
+    if kind is None or vals is None:
+        return None
+    if neg:
+        kind = 'finite' if kind == 'nan' else 'nan'
+        red = ['all' if r == 'any' else 'any' for r in red]
+    return kind, vals, red
+
+
+def _mentions_nan_test(e):
+    return any(isinstance(x, ast.Call) and _last(x) in NAN_TESTS + FINITE_TESTS for x in ast.walk(e))
+
+
+class NanRefusal:
+    """Must-analysis: the set of values (by origin) known to be free of NaN at each CFG node of a function — a branch
+    on a NaN test proves it for the values tested on the edge where the test says "no NaN"; `and` / `or` / `not` and
+    named conditions compose; a value returned by a helper of the module is NaN-free if the helper's own analysis
+    proves it at its `return`; a call of a helper that cannot return normally unless its argument is NaN-free proves
+    it for the argument."""
+
+    def __init__(self, F: ValueCase, helper, depth=0):
+        self.F, self.helper, self.depth = F, helper, depth
+        self.unknown = []
+        g = F.g
+        self.ins, _ = g.forward(frozenset(), self._transfer, lambda a, b: a & b, branch_transfer=self._branch)
+
+    def facts(self, e, pol, at, depth=0):
+        F = self.F
+        if isinstance(e, ast.Name) and depth < 4:
+            b = F.binding(e.id, at)
+            if b is not None and b[2] is None:
+                return self.facts(b[0], pol, b[1], depth + 1)
+            return frozenset()
+        if isinstance(e, ast.UnaryOp) and isinstance(e.op, ast.Not):
+            return self.facts(e.operand, not pol, at, depth)
+        if isinstance(e, ast.BoolOp):
+            parts = [self.facts(v, pol, at, depth) for v in e.values]
+            every = isinstance(e.op, ast.And) == pol       # `a and b` true / `a or b` false: every operand has that value
+            return frozenset().union(*parts) if every else frozenset.intersection(*parts)
+        if isinstance(e, ast.Call) and _last(e) == 'bool' and len(e.args) == 1:
+            return self.facts(e.args[0], pol, at, depth)
+        c = _classify(e)
+        if c is None:
+            if _mentions_nan_test(e):
+                self.unknown.append(norm(e)[:80])
+            return frozenset()
+        kind, vals, red = c
+        proves = (kind == 'nan' and not pol and 'all' not in red) or (kind == 'finite' and pol and 'any' not in red)
+        if not proves:
+            if (kind == 'nan' and not pol) or (kind == 'finite' and pol):
+                self.unknown.append(norm(e)[:80])
+            return frozenset()
+        return frozenset(o for o in (F.origin(v, at) for v in vals) if o is not None)
+
+    def _branch(self, node, lab, st):
+        if node.kind == 'test':
+            return st | self.facts(node.stmt.test, lab == 't', node.id)
+        return st
+
+    def _transfer(self, node, st):
+        if node.kind != 'stmt' or self.depth > 2:
+            return st
+        s = node.stmt
+        v = s.value if isinstance(s, (ast.Assign, ast.AnnAssign, ast.Expr)) else None
+        if not isinstance(v, ast.Call):
+            return st
+        sub = self.helper(v, self.depth + 1)
+        if sub is None:
+            return st
+        callee, ret_free, params_free, binder = sub
+        add = set()
+        if isinstance(s, ast.Assign):
+            for idx in ret_free:
+                add.add((self.F.fn.name, node.id, idx))
+        for p in params_free:
+            a = binder(p)
+            o = self.F.origin(a, node.id) if a is not None else None
+            if o is not None:
+                add.add(o)
+        return st | frozenset(add)
+
+    def summary(self):
+        """(components of the returned value that are NaN-free at every `return`; parameters that are NaN-free
+        whenever the function returns normally)"""
+        F = self.F
+        rets = [n for n in F.g.nodes if n.kind == 'stmt' and isinstance(n.stmt, ast.Return) and n.id in self.ins]
+        free = None
+        for n in rets:
+            v = n.stmt.value
+            if v is None:
+                here = set()
+            elif isinstance(v, ast.Tuple):
+                here = {i for i, e in enumerate(v.elts) if F.origin(e, n.id) in self.ins[n.id]}
+            else:
+                here = {None} if F.origin(v, n.id) in self.ins[n.id] else set()
+            free = here if free is None else free & here
+        ex = self.ins.get(F.g.exit)
+        pfree = {o[1] for o in ex if o[0] == 'param'} if ex is not None else set()
+        return free or set(), pfree
+
+
+def _arg_binder(callee, call):
+    a = callee.args
+    names = [p.arg for p in a.posonlyargs + a.args]
+    if isinstance(call.func, ast.Attribute) and names and names[0] in ('self', 'cls'):
+        names = names[1:]
+    bind = dict(zip(names, call.args))
+    for k in call.keywords:
+        if k.arg:
+            bind[k.arg] = k.value
+    return bind.get
+
+
+def _run_ground_speed(ctx, m, gs, fn, callee_of):
+    F = ValueCase(fn, None, None, m.tree, callee_of)
     rets = [n for n in walk_no_nested(fn) if isinstance(n, ast.Return) and n.value is not None]
     if len(rets) != 1:
         ctx.undecided('C16-R2', gs, 'return', f'{len(rets)} return statements')
-    rv = rets[0].value
-    hyp = None
-    for x in ast.walk(rv):
-        if isinstance(x, ast.Call) and call_name(x).split('.')[-1] == 'hypot' and len(x.args) == 2:
-            hyp = x
-    if hyp is None:
-        # sqrt(a**2 + b**2) form
-        ctx.undecided('C16-R2', gs, norm(rv), 'result is not hypot(a, b)')
+    ret = rets[0]
+    at_ret = F.node_of(ret)
+    args, hyp, at_h = _find_norm(F, ret.value, at_ret)
+    if args is None:
+        ctx.undecided('C16-R2', gs, norm(ret.value), 'result is not hypot(a, b) / sqrt(a² + b²)')
+
+    # R2 / R1: each component is (air-speed term) + (wind term); which wind variable, which trigonometric function
     comps = []
-    for i, a in enumerate(hyp.args):
-        e = a
-        if isinstance(e, ast.Name):
-            d = single_def_value(fn, e.id)
-            e = d if d is not None else e
+    for i, a in enumerate(args):
+        e, at_e = _step(F, a, at_h)
         is_sum = isinstance(e, ast.BinOp) and isinstance(e.op, ast.Add)
         ctx.ob('C16-R2', gs, f'hypot argument {i}: {norm(a)}', is_sum,
                'sum of an air-speed component and a wind component' if is_sum else
@@ -89,18 +309,20 @@ def run(ctx):
                line=a.lineno)
         if not is_sum:
             continue
-        sides = [e.left, e.right]
-        wind = [s for s in sides if _wind_var(fn, s)]
-        air = [s for s in sides if not _wind_var(fn, s)]
+        sides = [(sd, F.resolve(sd, at_e)) for sd in (e.left, e.right)]
+        wind = [(sd, r) for sd, r in sides if _wind_vars(r) and not _trig_calls(r)]
+        air = [(sd, r) for sd, r in sides if _trig_calls(r) and not _wind_vars(r)]
         if len(wind) != 1 or len(air) != 1:
             ctx.undecided('C16-R1', gs, norm(e), 'cannot tell the wind term from the air-speed term')
-        wv = _wind_var(fn, wind[0])
-        trig = _trig_of(fn, air[0])
-        kinds = {k for k, _ in trig}
+        wvs = _wind_vars(wind[0][1])
+        if len(wvs) != 1:
+            ctx.undecided('C16-R1', gs, norm(wind[0][0]), f'wind term reads dataset variables {sorted(wvs)}')
+        wv = wvs.pop()
+        kinds = {_last(c) for c in _trig_calls(air[0][1])}
         if len(kinds) != 1:
-            ctx.undecided('C16-R1', gs, norm(air[0]), f'air-speed term derives from {sorted(kinds)}')
+            ctx.undecided('C16-R1', gs, norm(air[0][0]), f'air-speed term derives from {sorted(kinds)}')
         k = kinds.pop()
-        comps.append((wv, k, air[0], wind[0], trig))
+        comps.append((wv, k, air[0], wind[0], at_e))
         ok = EXPECT[wv] == k
         axis = 'east' if wv == 'u' else 'north'
         ctx.ob('C16-R1', gs, f"{axis} component pairs wind '{wv}' with {k}(heading)", ok,
@@ -109,87 +331,146 @@ def run(ctx):
                 f"TAS·{EXPECT[wv]}(heading); the code adds TAS·{k}(heading) to the {axis}ward wind "
                 f"'{wv}': a pure tailwind on heading 090 does not add its full speed"),
                line=a.lineno)
-        # air term = TAS * trig(heading)
-        aexpr = air[0]
-        if isinstance(aexpr, ast.Name):
-            aexpr = single_def_value(fn, aexpr.id) or aexpr
-        okm = isinstance(aexpr, ast.BinOp) and isinstance(aexpr.op, ast.Mult) and \
-            'true_airspeed' in {norm(aexpr.left), norm(aexpr.right)}
-        ctx.ob('C16-R2', gs, f'air-speed term {norm(aexpr)}', okm,
+        # air term = TAS * trig(heading), as an exact product
+        shown, _ = _step(F, air[0][0], at_e)
+        tc = _trig_calls(air[0][1])[0]
+        ttxt = norm(tc)
+
+        class K(ast.NodeTransformer):
+            def visit_Call(self, n):
+                return ast.Name('TRIG', ast.Load()) if norm(n) == ttxt else self.generic_visit(n)
+        try:
+            okm = poly_equal(normal_form(K().visit(_cp(air[0][1]))), ref_normal_form('true_airspeed * TRIG', {}))
+        except AlgebraError:
+            okm = False
+        okm = okm and 'true_airspeed' in F.params
+        ctx.ob('C16-R2', gs, f'air-speed term {norm(shown)}', okm,
                'true airspeed times the trigonometric factor' if okm else
-               'air-speed component is not TAS × sin/cos(heading)', line=aexpr.lineno, nontrivial=False)
+               'air-speed component is not TAS × sin/cos(heading)', line=shown.lineno, nontrivial=False)
     ctx.floor('C16-R1', len(comps), 2, 'wind/air component pairs')
     if {c[0] for c in comps} != {'u', 'v'}:
         ctx.ob('C16-R2', gs, f'components use winds {sorted(c[0] for c in comps)}', False,
                "both 'u' and 'v' must enter the vector sum", line=hyp.lineno)
 
-    # R5 heading
-    for wv, k, air, wind, trig in comps:
-        for kind, call in trig:
-            arg = call.args[0]
-            d = arg
-            defs = [st for t, st, how in stores_to(fn) if isinstance(arg, ast.Name) and isinstance(t, ast.Name) and t.id == arg.id]
-            okd = bool(defs) and all(isinstance(s.value, ast.Call) and call_name(s.value).split('.')[-1] in ('deg2rad', 'radians')
-                                     for s in defs)
-            ctx.ob('C16-R5', gs, f'{kind}({norm(arg)}) takes radians', okd,
-                   'heading converted with deg2rad on every path' if okd else
-                   'trigonometric argument is not the heading converted to radians', line=call.lineno)
-            for s in defs:
-                src = norm(s.value.args[0]) if isinstance(s.value, ast.Call) and s.value.args else '?'
-                g = [(norm(t), pol) for t, pol, _ in guards_of(s)]
-                if ('azimuth is None', True) in g:
-                    ok = src == 'gt_point.azimuth'
-                elif ('azimuth is None', False) in g:
-                    ok = src == 'azimuth'
-                else:
-                    ok = src in ('azimuth', 'gt_point.azimuth')
-                ctx.ob('C16-R5', gs, f'heading source {src} under {g}', ok,
-                       'explicit azimuth when given, else the ground-track azimuth' if ok else
-                       'wrong heading source for this branch', line=s.lineno, nontrivial=False)
-            break
+    # R5 heading: for an absent azimuth, an explicit azimuth of 0 (falsy) and an ordinary explicit azimuth, run the
+    # selection of the heading as that value runs it (if/else, conditional expression, `or`, rebinding of the parameter,
+    # match) and look at what reaches the trigonometric function
+    if 'azimuth' not in F.params:
+        ctx.undecided('C16-R5', gs, 'azimuth', 'get_ground_speed no longer takes the optional azimuth')
+    for wv, k, (air_sd, air_r), wind_, at_e in comps:
+        st_e = F.g.nodes[at_e].stmt
+        shown, _ = _step(F, air_sd, at_e)
+        tshown = (_trig_calls(shown) or _trig_calls(air_r))[0]
+        srcs = []
+        for val in (None, 0.0, 90.0):
+            try:
+                Fv = ValueCase(fn, 'azimuth', val, m.tree, callee_of)
+                at_v = Fv.node_of(st_e)
+                if at_v is None:
+                    ctx.undecided('C16-R5', gs, norm(st_e)[:60], f'not reached when azimuth = {val}')
+                rv = Fv.resolve(air_sd, at_v)
+            except Undecidable as ex:
+                ctx.undecided('C16-R5', gs, f'heading when azimuth = {val}', str(ex))
+            tcs = _trig_calls(rv)
+            x = _radians_of(tcs[0].args[0]) if tcs and len(tcs[0].args) == 1 else None
+            srcs.append((val, x))
+        okd = all(x is not None for _, x in srcs)
+        ctx.ob('C16-R5', gs, f'{k}({norm(tshown.args[0]) if tshown.args else "?"}) takes radians', okd,
+               'heading converted from degrees to radians on every path' if okd else
+               'trigonometric argument is not the heading converted to radians', line=tshown.lineno)
+        for val, x in srcs:
+            if x is None:
+                continue
+            src = norm(_mod360(x))
+            want = 'gt_point.azimuth' if val is None else 'azimuth'
+            ok = src == want
+            when = 'no azimuth is given' if val is None else f'azimuth = {val}'
+            ctx.ob('C16-R5', gs, f'heading source when {when}: {src}', ok,
+                   'explicit azimuth when given, else the ground-track azimuth' if ok else
+                   (f'with {when} the heading must be `{want}`, the code uses `{src}`' +
+                    (': a heading of exactly 0° (due north) is replaced by the ground-track azimuth' if val == 0.0 else '')),
+                   line=tshown.lineno, nontrivial=False)
 
-    # R3 NaN refusal
-    g = CFG(fn)
-    dom = g.dominators(edge_ok=lambda a, b, lab: lab != 'e')
-    gate = None
-    for n in g.nodes:
-        if n.kind == 'stmt' and isinstance(n.stmt, ast.Raise):
-            gsx = guards_of(n.stmt)
-            for t, pol, o in gsx:
-                txt = norm(t)
-                if 'isnull()' in txt or 'isnan' in txt:
-                    both = all(v in txt for v in ('wind_u', 'wind_v')) and isinstance(t, ast.BoolOp) and isinstance(t.op, ast.Or)
-                    gate = (g.nodes_of(o), both, txt)
-    rn = [n for n in g.nodes if n.stmt is rets[0]]
-    ok = gate is not None and gate[1] and any(x in dom[rn[0].id] for x in gate[0])
+    # R3 NaN refusal: both wind values are known NaN-free at the return, on every path
+    cache = {}
+
+    def helper(call, depth):
+        callee = callee_of(call)
+        if callee is None:
+            return None
+        if id(callee) not in cache:
+            cfn = unroll_literal_loops(callee)
+            nr_ = NanRefusal(ValueCase(cfn, None, None, m.tree, callee_of), helper, depth)
+            cache[id(callee)] = (cfn,) + nr_.summary()
+        cfn, rfree, pfree = cache[id(callee)]
+        return cfn, rfree, pfree, _arg_binder(cfn, call)
+
+    nr = NanRefusal(F, helper)
+    state = nr.ins.get(at_ret, frozenset())
+    missing = []
+    for wv, k, air_, (wind_sd, wind_r), at_e in comps:
+        o = F.origin(wind_sd, at_e)
+        if o is None:
+            ctx.undecided('C16-R3', gs, norm(wind_sd)[:60], 'the wind term is not a named value a NaN test could refer to')
+        if o not in state:
+            missing.append(wv)
+    ok = not missing and len(comps) == 2
+    if not ok and nr.unknown:
+        ctx.undecided('C16-R3', gs, nr.unknown[0], 'a NaN test of a form that is not recognised')
     ctx.ob('C16-R3', gs, 'points outside the weather domain are refused', ok,
-           f'`if {gate[2]}: raise` dominates the return' if ok else
-           ('no NaN test' if gate is None else 'the NaN test does not cover both components or does not dominate the return'))
+           'a NaN test on both wind components that raises precedes the return on every path' if ok else
+           (f"the wind component(s) {sorted(missing)} reach the result without a NaN test that raises on every path: "
+            'a point outside the data domain yields NaN instead of being refused'), line=ret.lineno)
 
     # R4 pressure level and coordinate roles
-    interps = [c for c in calls_in(fn) if isinstance(c.func, ast.Attribute) and c.func.attr == 'interp']
+    interps = []
+    for wv, k, air_, (wind_sd, wind_r), at_e in comps:
+        interps += [c for c in ast.walk(wind_r) if isinstance(c, ast.Call) and isinstance(c.func, ast.Attribute)
+                    and c.func.attr == 'interp']
     ctx.floor('C16-R4', len(interps), 2, 'wind interpolation calls')
+    want_pl = ref_normal_form('pressure_at_altitude_isa_bada4(altitude) / 100', {})
     for c in interps:
         pl = kwarg(c, 'pressure_level')
-        ok = pl is not None and norm(pl) in ('pressure_at_altitude_isa_bada4(altitude) / 100.0',
-                                             'pressure_at_altitude_isa_bada4(altitude) / 100',
-                                             'pressure_at_altitude_isa_bada4(altitude) * 0.01')
+        try:
+            ok = pl is not None and 'altitude' in F.params and poly_equal(normal_form(pl), want_pl)
+        except AlgebraError:
+            ok = False
         ctx.ob('C16-R4', gs, f'pressure_level={norm(pl) if pl is not None else "?"}', ok,
                'ISA pressure in Pa converted to hPa' if ok else
                'pressure level is not ISA pressure(altitude) / 100 (files are in hPa)', line=c.lineno)
         for kw in ('latitude', 'longitude'):
             v = kwarg(c, kw)
-            r = expr_role(fn, v) if v is not None else None
+            r = expr_role(None, v) if v is not None else None
             want = 'lat' if kw == 'latitude' else 'lon'
-            ok = r == want and 'gt_point' in norm(v)
+            ok = r == want and 'gt_point' in F.params and any(isinstance(x, ast.Name) and x.id == 'gt_point' for x in ast.walk(v))
             ctx.ob('C16-R4', gs, f'{kw}={norm(v) if v is not None else "?"}', ok,
                    'coordinate receives the matching component of the ground-track point' if ok else
                    f'{kw} coordinate receives `{norm(v) if v is not None else None}`', line=c.lineno,
                    nontrivial=False)
-    vars_ = sorted(_wind_var(fn, c.func.value) or '?' for c in interps)
+    vars_ = sorted(''.join(sorted(_wind_vars(c.func.value))) or '?' for c in interps)
     ctx.ob('C16-R4', gs, f'interpolated variables {vars_}', vars_ == ['u', 'v'],
            "one interpolation each for 'u' and 'v'" if vars_ == ['u', 'v'] else 'wind variables read are not u and v',
            nontrivial=False)
+
+
+def run(ctx):
+    prog = ctx.prog
+    m = prog.module(W)
+    gs = m.func('Weather.get_ground_speed')
+    fn = unroll_literal_loops(gs.node)
+
+    def callee_of(call):
+        """helpers of this module are followed; everything else is a primitive"""
+        try:
+            fi = resolve_call(prog, gs, call)
+        except Exception:
+            fi = None
+        return fi.node if fi is not None and fi.file == gs.file and fi.node is not gs.node else None
+
+    try:
+        _run_ground_speed(ctx, m, gs, fn, callee_of)
+    except Undecidable as ex:
+        ctx.undecided('C16-R1', gs, 'value flow', str(ex))
 
     # the altitude -> pressure conversion itself (shared with C12-R1/R2: canonical-form comparison with ISA)
     from .c12 import rule_isa
